@@ -32,6 +32,8 @@ PROPERTY_MACHINES = {
     "C20": ["c20"],
 }
 
+LEVELS = {"C20": "fault_enumeration"}
+
 _MACHINES = {}
 
 
@@ -333,7 +335,7 @@ def cmd_run(prop, tier, seed, nproc, runs_override=None, only=None):
 
     wall = time.time() - t_start
     evidence = {
-        "property_id": prop, "tier": tier, "seed": seed, "level": "exploration",
+        "property_id": prop, "tier": tier, "seed": seed, "level": LEVELS.get(prop, "exploration"),
         "coverage": {
             "evaluations": total["runs"],
             "distinct_nontrivial": len(total["keys"]),
